@@ -29,7 +29,7 @@ def main():
     ap.add_argument("dir")
     ap.add_argument("i")
     ap.add_argument("--checks", default=None)
-    ap.add_argument("--tests", action="store_true")
+    ap.add_argument("--tests", action="store_true", default=True)
     ap.add_argument("--tier", default="quick")
     a = ap.parse_args()
     patch = os.path.join(a.dir, "mut%s.diff" % a.i)
